@@ -467,7 +467,10 @@ pub fn properties() -> Vec<Property> {
       id: "C06",
       rule: "cases = pipeline over probing sources (cold polite/rude, harness hot, crate subjects, bounded-by-operator repeat/endless iterators); every subscriber ends by terminal or unsubscribe at a generated position; non-trivial = the ending happened while some source still had events to emit",
       assumptions: vec!["root endings are checked model-free; inner endings (early-finish operator in one branch) are checked against the reference interpreter in sub-check inner"],
-      subs: vec![mk_sub("root", (1500, 30_000), |ctx| seq_strategy(c06_cfg(ctx)), c06_check)],
+      subs: vec![
+        mk_sub("root", (1500, 30_000), |ctx| seq_strategy(c06_cfg(ctx)), c06_check),
+        super::diff::sub_c06_inner(),
+      ],
     },
     Property {
       id: "C17",
